@@ -699,20 +699,32 @@ fn sibling_key(s: &Sib) -> (u8, &'static str, (&'static str, u32, u32)) {
     ((s.kind >= 2) as u8, s.name, (s.file, s.line, s.col))
 }
 
+fn reference_cmp(a: &Sib, b: &Sib, attr: u8) -> Ordering {
+    let (ka, kb) = (sibling_key(a), sibling_key(b));
+    let kind = ka.0.cmp(&kb.0);
+    let name = natural_ref(ka.1, kb.1);
+    let loc = ka.2.cmp(&kb.2);
+    match attr {
+        0 => kind.then(name).then(loc),
+        1 => name.then(loc).then(kind),
+        _ => loc.then(kind).then(name),
+    }
+}
+
 fn expected_order(sibs: &[Sib], attr: u8) -> Vec<usize> {
     let mut v: Vec<usize> = (0..sibs.len()).collect();
-    v.sort_by(|&a, &b| {
-        let (ka, kb) = (sibling_key(&sibs[a]), sibling_key(&sibs[b]));
-        let kind = ka.0.cmp(&kb.0);
-        let name = natural_ref(ka.1, kb.1);
-        let loc = ka.2.cmp(&kb.2);
-        match attr {
-            0 => kind.then(name).then(loc),
-            1 => name.then(loc).then(kind),
-            _ => loc.then(kind).then(name),
-        }
-    });
+    v.sort_by(|&a, &b| reference_cmp(&sibs[a], &sibs[b], attr));
     v
+}
+
+/// Siblings that tie on all three attributes (same location, same kind, names such as `a2` / `a02` that
+/// the natural order does not tell apart) have no documented order: any ascending arrangement is right.
+fn ascending(sibs: &[Sib], shown: &[String], attr: u8) -> bool {
+    let find = |n: &String| sibs.iter().find(|s| s.name == n.as_str());
+    shown.windows(2).all(|w| match (find(&w[0]), find(&w[1])) {
+        (Some(a), Some(b)) => reference_cmp(a, b, attr) != Ordering::Greater,
+        _ => false,
+    })
 }
 
 fn flatten(nodes: &[NodeMirror], parent: &str, out: &mut Vec<String>) {
@@ -757,8 +769,20 @@ fn check_siblings(cli: &Cli, r: &Report) {
     let mut combos = Vec::new();
     rec(&names, kinds, max, &mut Vec::new(), &mut combos);
     for combo in combos {
-        for line_mode in 0..4 {
+        for line_mode in 0..5 {
             let n = combo.len();
+            // mode 4: every sibling at one and the same (file, line, column), as items generated by one
+            // macro_rules invocation are. Two items that both have an entry address are then ordered by
+            // address (no documented order), so the sets are those with at most one such item next to
+            // plain modules: there kind, then name decide, as documented.
+            if line_mode == 4 && !(combo.iter().filter(|c| c.0 != 3).count() <= 1 && combo.iter().any(|c| c.0 == 3)) {
+                continue;
+            }
+            // (`a2` and `a02` are equal in the natural order: at one location and of one kind they tie on
+            // all three attributes, and neither their order nor its reverse is documented)
+            if line_mode == 4 && combo.iter().any(|c| names[c.1] == "a2") && combo.iter().any(|c| names[c.1] == "a02") {
+                continue;
+            }
             let sibs: Vec<Sib> = combo
                 .iter()
                 .enumerate()
@@ -769,10 +793,11 @@ fn check_siblings(cli: &Cli, r: &Report) {
                     file: if line_mode == 3 { ["z.rs", "a.rs", "m.rs", "b/c.rs"][i % 4] } else { "zoo.rs" },
                     line: match line_mode {
                         0 | 3 => 10 * (i as u32 + 1),
+                        4 => 10,
                         1 => 10 * ((n - i) as u32),
                         _ => 10, // all on one line: the column decides
                     },
-                    // Distinct items never share an exact location.
+                    // (modes 0-3: distinct items at distinct locations)
                     col: if line_mode == 2 { 40 - 7 * i as u32 } else { 1 },
                 })
                 .collect();
@@ -816,7 +841,7 @@ fn check_siblings(cli: &Cli, r: &Report) {
             let want: Vec<String> = expected_order(sibs, attr).iter().map(|&i| sibs[i].name.to_owned()).collect();
             // Exact location ties between distinct items fall back to entry addresses
             // (meant for generic instantiations); no documented order to compare with.
-            if got != want && !(attr == 2 && line_ties) {
+            if got != want && !(attr == 2 && line_ties) && !(got.len() == want.len() && ascending(sibs, &got, attr)) {
                 r.violation(Violation {
                     sig: json!({"check":"tree_sort","class":"order","attr":attr,"line_ties":line_ties}),
                     text: format!("siblings {sibs:?} sorted by {} are shown as {got:?}, the documented order is {want:?}", ["kind", "name", "location"][attr as usize]),
